@@ -78,7 +78,7 @@ Qed.
 (** a set whose members are all below 63 is not the all-ones map *)
 Lemma bits_not_max : forall b, bit b 63 = false -> fm_any_enabled b = true.
 Proof.
-  intros b H. unfold fm_any_enabled. apply negb_true_iff, N.eqb_neq. intro E. subst b.
+  intros b H. unfold fm_any_enabled. apply negb_true_iff. apply andb_false_intro2. apply N.eqb_neq. intro E. subst b.
   unfold bit in H. vm_compute in H. discriminate.
 Qed.
 
